@@ -21,6 +21,8 @@ func main() {
 		scs = append(scs, sc)
 	}
 	_ = stacks.Kinds
+	// cheap and first: a channel closed while its handler still holds a message
+	scs = append([]*explore.Scenario{c01.CloseDuringHandlerScenario(pb)}, scs...)
 	explore.Main(run, scs, evid.Pick(run, 160*time.Second, 18*time.Minute))
 	run.Set("preemption_bound", pb)
 	run.Assume("payload contents are self-describing patterns; udpswarm runs over the virtual network")
